@@ -262,3 +262,15 @@ package jsonschema
 //@   ensures[C17,C10] result1 == nil ==> true
 //@   loop "range segments"
 //@     invariant valid: kind(v) != 0
+
+// ---------------------------------------------------------------------------
+// schema.go
+// ---------------------------------------------------------------------------
+
+//@ contract (*Schema).basicChecks(s)
+//@   pure
+//@   ensures[C19,C10] nodup: result == nil ==> (forall i int, j int {s.PropertyOrder[i], s.PropertyOrder[j]} :: 0 <= i && i < j && j < len(s.PropertyOrder) ==> s.PropertyOrder[i] != s.PropertyOrder[j])
+//@   ensures[C05,C10] excl: result == nil ==> !(s.Type != "" && s.Types != nil) && !(s.Defs != nil && s.Definitions != nil) && !(s.Items != nil && s.ItemsArray != nil)
+//@   loop "range s.PropertyOrder"
+//@     invariant seen: new(propertyOrderSeen) && (forall k string {has(propertyOrderSeen, k)} :: has(propertyOrderSeen, k) <==> (exists i int :: 0 <= i && i <= $idx && s.PropertyOrder[i] == k))
+//@     invariant distinct: forall i int, j int {s.PropertyOrder[i], s.PropertyOrder[j]} :: 0 <= i && i < j && j <= $idx ==> s.PropertyOrder[i] != s.PropertyOrder[j]
